@@ -9,6 +9,7 @@ from __future__ import annotations
 
 import dataclasses
 import itertools
+import json
 import sys
 import types
 from typing import Any
@@ -330,6 +331,18 @@ class World:
     def mkchild(self, v: Any) -> Any:
         if v is None:
             return None
+        memo = getattr(self, "_share", None)
+        if memo is not None and "tuple" not in v:
+            # one node OBJECT at several child positions of the instance (a user's `BinOp(a, a)`)
+            key = json.dumps(v, sort_keys=True)
+            if key in memo:
+                self.stats.probes["child_object_shared"] += 1
+                return memo[key]
+            memo[key] = self._mkchild(v)
+            return memo[key]
+        return self._mkchild(v)
+
+    def _mkchild(self, v: Any) -> Any:
         if "leaf" in v:
             return self.mod.GLeaf(v["leaf"])
         if "other" in v:
@@ -382,6 +395,7 @@ class World:
         fl = linear(self.h, cname)
         if what == "instantiate":
             kw: dict[str, Any] = {}
+            self._share = {} if op.get("share") else None
             for f in fl:
                 if f["name"] in op["vals"]:
                     v = op["vals"][f["name"]]
@@ -860,7 +874,7 @@ class Gen:
             ni += 1
             inst = f"i{ni}"
             # without the sampled check the scheduled accessor events below are really the first calls on this class
-            evs = pre + [{"op": "event", "cls": cn, "what": "instantiate", "inst": inst, "vals": self.values(cn), "check": r.random() < 0.4}]
+            evs = pre + [{"op": "event", "cls": cn, "what": "instantiate", "inst": inst, "vals": self.values(cn), "share": self.r("share").random() < 0.3, "check": r.random() < 0.4}]
             if r.random() < 0.25:
                 evs.append({"op": "event", "cls": cn, "what": "partial", "inst": inst, "acc": r.choice(["get_properties", "get_child_nodes", "get_child_nodes_with_field", "iter_child_fields", "get_property_fields"]), "take": r.choice([1, 1, 2]), "flags": r.choice([{}, {k: r.random() < 0.5 for k in FLAGS}]), "sort": r.random() < 0.5})
             for what in r.sample(["get_properties", "get_child_nodes", "get_child_nodes_with_field", "iter_child_fields", "children", "to_properties_dict"], r.choice([1, 2, 4, 6])):
@@ -905,7 +919,7 @@ class Gen:
         for cn in names:
             if r.random() < 0.6:
                 ni += 1
-                do({"op": "event", "cls": cn, "what": "instantiate", "inst": f"i{ni}", "vals": self.values(cn)})
+                do({"op": "event", "cls": cn, "what": "instantiate", "inst": f"i{ni}", "vals": self.values(cn), "share": self.r("share").random() < 0.3})
         do({"op": "cube"})
         if w.cfg.get("redefine"):
             # the same names defined again with other field lists; everything must follow the NEW definitions
@@ -921,7 +935,7 @@ class Gen:
                     continue
                 cn = c["name"]
                 ni += 1
-                do({"op": "event", "cls": cn, "what": "instantiate", "inst": f"i{ni}", "vals": self.values(cn), "check": r.random() < 0.5})
+                do({"op": "event", "cls": cn, "what": "instantiate", "inst": f"i{ni}", "vals": self.values(cn), "share": self.r("share").random() < 0.3, "check": r.random() < 0.5})
                 for what in r.sample(["get_properties", "get_child_nodes", "get_child_nodes_with_field", "iter_child_fields", "to_properties_dict"], 2):
                     do({"op": "event", "cls": cn, "what": what, "inst": f"i{ni}", "flags": {k: r.random() < 0.5 for k in FLAGS}, "sort": r.random() < 0.5})
             do({"op": "cube"})
